@@ -1,5 +1,6 @@
 import RubyTi.Model.Narrow
 import RubyTi.Gen.NarrowFacts
+import RubyTi.Props.C19
 
 /-!
 # C10 — nil?/is_a? narrowing is exact inside branches and undone afterwards (narrowing core)
@@ -66,8 +67,54 @@ theorem restore_other (before vars : Vars) (x y : Str) (h : x ≠ y) :
   · exact lookup_insert_other _ _ _ _ h
   · rfl
 
-/-- what `IfUnless.Evaluation` does around the core, as extracted from the source now -/
-theorem state_isolation_facts : Gen.ifUnlessSavesState = true ∧ Gen.elsifDefersRestores = true := by decide
+/-- what `IfUnless.Evaluation` does around the core, as extracted from the source now: the three state maps are
+saved and each gets its own copy back, the restore closures of an `elsif` are deferred, and the restore
+closures of the condition run last-in first-out -/
+theorem state_isolation_facts :
+    Gen.ifUnlessSavesState = true ∧ Gen.elsifDefersRestores = true ∧ Gen.conditionRestoresLIFO = true := by decide
+
+/-! ### Why the restore closures must run last-in first-out
+
+Every narrowing step of a condition (`!x.nil? && !x.is_a?(Integer)` has two for `x`) pushes a closure that
+writes back the value the variable had *before that step*. `saves` lists them in step order. -/
+
+theorem lookup_applyWrites_find {κ ν} [DecidableEq κ] (t : Table κ ν) (ws : List (κ × ν)) (k : κ) :
+    lookup (C19.applyWrites t ws) k =
+      match ws.reverse.find? (fun w => w.1 == k) with
+      | some w => some w.2
+      | none => lookup t k := by
+  induction ws generalizing t with
+  | nil => simp [C19.applyWrites]
+  | cons w rest ih =>
+    have h := ih (Frame.insert t w.1 w.2)
+    simp only [C19.applyWrites, List.foldl_cons] at h ⊢
+    rw [h, List.reverse_cons, List.find?_append]
+    cases hf : rest.reverse.find? (fun w => w.1 == k) with
+    | some x => simp
+    | none =>
+      by_cases hk : w.1 = k
+      · subst hk; simp [lookup_insert_self]
+      · simp [hk, lookup_insert_other _ _ _ _ hk]
+
+/-- **Last-in first-out restores the pre-conditional value**: running the restore closures in reverse step
+order leaves every narrowed variable with the value saved by its FIRST step — the value it had before the
+conditional — however many steps narrowed it. -/
+theorem restore_lifo_original {κ ν} [DecidableEq κ] (t : Table κ ν) (saves : List (κ × ν)) (k : κ) (v : ν)
+    (hfirst : saves.find? (fun w => w.1 == k) = some (k, v)) :
+    lookup (C19.applyWrites t saves.reverse) k = some v := by
+  rw [lookup_applyWrites_find, List.reverse_reverse, hfirst]
+
+/-- a variable no step narrowed is not touched by the restores -/
+theorem restore_lifo_other {κ ν} [DecidableEq κ] (t : Table κ ν) (saves : List (κ × ν)) (k : κ)
+    (h : saves.find? (fun w => w.1 == k) = none) :
+    lookup (C19.applyWrites t saves.reverse) k = lookup t k := by
+  rw [lookup_applyWrites_find, List.reverse_reverse, h]
+
+/-- first-in first-out would leave the value saved by the LAST step (witness: `x` narrowed twice, original 10,
+intermediate 20: LIFO gives 10 back, FIFO 20) -/
+example :
+    lookup (C19.applyWrites ([(1, 30)] : Table Nat Nat) [(1, 10), (1, 20)].reverse) 1 = some 10 ∧
+    lookup (C19.applyWrites ([(1, 30)] : Table Nat Nat) [(1, 10), (1, 20)]) 1 = some 20 := by decide
 
 /-- non-vacuity: `x : Integer|String|NilClass`, `if x.nil?` … `else` -/
 example :
